@@ -916,6 +916,11 @@ void matrixSslDeleteSession(ssl_t *ssl)
         }
 # endif
         tls13FreePsk(ssl->sec.tls13SessionPskList, ssl->hsPool);
+        /* The CertificateVerify signature is normally released when the
+           flight it belongs to is complete; a handshake that ends before
+           that still owns it. */
+        psFree(ssl->sec.tls13CvSig, ssl->hsPool);
+        ssl->sec.tls13CvSig = NULL;
         if (ssl->sec.tls13CookieFromServer)
         {
             psFree(ssl->sec.tls13CookieFromServer, ssl->hsPool);
